@@ -221,8 +221,7 @@ func runR103Into(c *core.Ctx, rule string) {
 	runR103(sub)
 	for _, o := range sub.Obs {
 		if strings.HasPrefix(o.Key, "server.") {
-			o.Rule = rule
-			c.Obs = append(c.Obs, o)
+			c.Import(o, rule)
 		}
 	}
 }
